@@ -499,7 +499,15 @@ func (l *Local) Release(ctx context.Context, cni *daemon.CNI, request NetworkRes
 
 	res := request.(*LocalIPResource)
 
-	if l.eni == nil || l.eni.ID != res.ENI.ID {
+	if l.eni == nil {
+		return false, nil
+	}
+	if res.ENI.ID != "" {
+		if l.eni.ID != res.ENI.ID {
+			return false, nil
+		}
+	} else if res.ENI.MAC == "" || l.eni.MAC != res.ENI.MAC {
+		// a legacy record names the eni by its mac only
 		return false, nil
 	}
 
